@@ -27,7 +27,7 @@ UNITS = {}      # property id -> list of Unit
 class Unit:
     def __init__(self, prop, name, prove=None, replay=None, concrete=None, scope="unbounded", tiers=("quick", "thorough"),
                  timeout_ms=None, expect_min=1, may_raise=None, assumptions=(), bounded_desc=None, weight=1, hints=None,
-                 array_mode="cells", replay_once=False):
+                 array_mode="cells", replay_once=False, replay_free=False):
         self.prop, self.name = prop, name
         self.prove, self.replay, self.concrete = prove, replay, concrete
         self.scope = scope              # "unbounded" | "shape:<desc>"  (per-shape proofs are reported separately)
@@ -41,6 +41,7 @@ class Unit:
         self.hints = hints
         self.array_mode = array_mode
         self.replay_once = replay_once
+        self.replay_free = replay_free      # the replay needs no solver model (fixed native inputs): it is also run when the solver answers unknown
         UNITS.setdefault(prop, []).append(self)
 
 
@@ -245,7 +246,9 @@ def _unit_worker(args):
         for c in u.paths:
             for ob in c.obligations:
                 nobl += 1
-                r = solve.discharge(ob, timeout_ms=tmo, hints=(unit.hints or ()))
+                r = solve.discharge(ob, timeout_ms=(tmo if not res.get("_open") else min(tmo, 5000)), hints=(unit.hints or ()))
+                if r["verdict"] != "valid":
+                    res["_open"] = True        # the unit is no longer proved: the remaining obligations get a short budget
                 rec = dict(name=ob["name"], kind=ob["kind"], verdict=r["verdict"], backend=r.get("backend"),
                            time_s=round(r.get("time_s", 0.0), 4), stage=r.get("stage"))
                 if r["verdict"] == "refuted":
@@ -274,6 +277,17 @@ def _unit_worker(args):
                             res["_replay_cache"] = rec["replay"]
                 if r["verdict"] == "unknown":
                     rec["reason"] = r.get("reason", "")
+                    if unit.replay is not None and unit.replay_free:
+                        # no counter-model, but the unit has model-free native inputs: an obligation that is no longer discharged AND a
+                        # failing input of the real code together are a violation; without a failing input it stays undecided
+                        try:
+                            if "_replay_cache" not in res:
+                                res["_replay_cache"] = unit.replay(ModelView({}, []), ob)
+                            if res["_replay_cache"].get("reproduced"):
+                                rec["replay"] = res["_replay_cache"]
+                                rec["solver_output"] = "solver: unknown (%s); failing input found by the unit's native replay" % rec["reason"]
+                        except Exception as e:
+                            res["_replay_cache"] = dict(reproduced=False, error="replay harness failed: %s: %s" % (type(e).__name__, e))
                 if len(res["samples"]) < 3 and not ob.get("trivial") and r["verdict"] == "valid":
                     try:
                         res["samples"].append(dict(obligation=ob["name"], verdict="valid", backend=r.get("backend"),
@@ -321,6 +335,7 @@ def _unit_worker(args):
                                       error="%s: %s" % (type(e).__name__, e), tb=traceback.format_exc()[-2000:])
     res["time_s"] = round(time.time() - t0, 3)
     res.pop("_replay_cache", None)
+    res.pop("_open", None)
     return res
 
 
@@ -459,6 +474,12 @@ def run_check(prop, tier="quick", level_note=None):
                     violations.append((r, o, "no-failing-input-found"))
                 else:
                     undecided.append(dict(unit=r["unit"], reason="candidate counter-model of %s did not replay and the query had partially instantiated quantifiers" % o["name"]))
+            elif (o.get("replay") or {}).get("reproduced"):
+                kf = [k for k in known if k["match"] in o["name"]]
+                if kf:
+                    known_hit.append((kf[0], o))
+                else:
+                    violations.append((r, o, "replayed"))
             else:
                 undecided.append(dict(unit=r["unit"], reason="solver unknown on %s (%s)" % (o["name"], o.get("reason", ""))))
         b = r.get("bounded")
